@@ -101,6 +101,9 @@ def feed_series(case, days, d0):
     t1 = iv.wall_to_min(iv.add_days(db, 2), fz)
     times = list(range(t0, t1, step))
     values = [Fraction(80 + 2 * ((i * 17) % 29) + (i % 2), 2) for i in range(len(times))]
+    if case.get("cold"):
+        # a cold-climate feed in whole degrees, -14 .. +14 F: one reading in 29 is exactly 0 F (a temperature, not "no reading")
+        values = [Fraction((i * 17) % 29 - 14) for i in range(len(times))]
     anchor = 360 if case.get("meter") == "daily06" else 0
     w0 = iv.wall_to_min(d0, zone, anchor)
     base = times.index(w0)
@@ -141,6 +144,10 @@ def build_inputs(case):
         # mean of its own readings
         if 0 < k < len(mv) - 1:
             mv[k] = np.nan
+    for a, n, val in case.get("meter_runs", []):
+        # an outage of an HOURLY meter: n readings from position a are NaN (val None) or zero (electricity: not a reading)
+        for k in range(a, min(a + n, len(mv))):
+            mv[k] = np.nan if val is None else float(val)
     meter = pd.Series(mv, index=to_index(mt, zone), name="value")
     if case["entry"] == "from_series":
         return ("series", meter, temp), days, times, values
@@ -186,6 +193,8 @@ def close(obs, exp):
 def run_case(case):
     key0 = {"family": case["family"], "entry": case["entry"], "feed": case["feed"],
             "meter_day": "06:00" if case["meter"] == "daily06" else "midnight"}
+    if case.get("cold"):
+        key0["feed_values"] = "with_exact_zeros"
     inputs, days, times, values = build_inputs(case)
     ref = tempday.day_stats(times, values, days)
     cls = probe_class(case["family"], case.get("cls", "baseline"))
@@ -300,6 +309,16 @@ def cases(tier):
                     for gaps in [[k] for k in range(1, N_DAYS - 1)]:
                         out.append({"family": "daily", "cls": "baseline", "entry": entry, "feed": 60, "feed_zone": "same", "meter": meter,
                                     "zone": z, "window": w, "dst_pos": N_DAYS // 2, "runs": [], "meter_gaps": gaps})
+    # ---- an hourly meter that is down for half a day or more (hourly feed): runs of 11/12/13/24/30 readings at every 6th hour of the
+    # interior days, as NaN and as zero; every day keeps its row and the mean of its OWN temperature readings
+    for z in meter_zones:
+        for w in ("spring", "autumn"):
+            for entry in ("from_series", "frame"):
+                for n in (11, 12, 13, 24, 30):
+                    for a in range(24, 24 * (N_DAYS - 1) - n, 6):
+                        for val in (None, 0.0):
+                            out.append({"family": "daily", "cls": "baseline", "entry": entry, "feed": 60, "feed_zone": "same", "meter": "hourly",
+                                        "zone": z, "window": w, "dst_pos": N_DAYS // 2, "runs": [], "meter_runs": [[a, n, val]]})
     # ---- d = 0: every feed zone, every position of the DST day in the window, every meter / entry / class
     for z in meter_zones:
         for w in ("spring", "autumn"):
@@ -320,6 +339,17 @@ def cases(tier):
                     for cls in ("baseline", "reporting"):
                         out.append({"family": "billing", "cls": cls, "entry": entry, "feed": feed, "feed_zone": "same",
                                     "meter": "billing", "zone": z, "window": w, "dst_pos": 2, "runs": []})
+    # ---- a cold feed with readings of exactly 0 F: undeviated, and with one run ending so that a day sits at its 50 % threshold
+    for z in meter_zones[:1]:
+        for feed in (60, 30):
+            for meter, family in (("daily00", "daily"), ("daily06", "daily"), ("hourly", "daily"), ("billing", "billing")):
+                for entry in ("from_series", "frame"):
+                    for cls in ("baseline", "reporting"):
+                        base = {"family": family, "cls": cls, "entry": entry, "feed": feed, "feed_zone": "same", "meter": meter,
+                                "zone": z, "window": "spring", "dst_pos": 2, "cold": True}
+                        out.append(dict(base, runs=[]))
+                        if cls == "baseline" and entry == "from_series" and meter in ("daily00", "billing"):
+                            add(base, 1, lattice=(6 if quick else 1) * 60 // feed)
     # ---- d = 1
     for z in meter_zones:
         for w in ("spring", "autumn"):
